@@ -325,6 +325,43 @@ def n20_anf_tail_chain(body, fired, qname):
     return body[:start] + '\n' + '\n'.join(out) + '\n    ' + body[close:]
 
 
+def n10_string_plus_chain(body, fired):
+    """N10 (general form): a tail expression `S.clone() + A + B ...` whose first operand is an owned String becomes
+    str_concat(str_concat(S.clone(), A), B) (Verus crashes on String + &str)."""
+    m = mask(body)
+    close = m.rstrip().rfind('}')
+    depth, start = 0, None
+    for i, ch in enumerate(m[:close]):
+        if ch in '([{':
+            depth += 1
+            if depth == 1 and ch == '{':
+                start = i + 1
+        elif ch in ')]}':
+            depth -= 1
+        elif ch == ';' and depth == 1:
+            start = i + 1
+    tail = body[start:close]
+    tm = mask(tail)
+    parts, depth, last = [], 0, 0
+    for i, ch in enumerate(tm):
+        if ch in '([{':
+            depth += 1
+        elif ch in ')]}':
+            depth -= 1
+        elif ch == '+' and depth == 0 and tm[i:i + 2] != '+=':
+            parts.append(tail[last:i].strip())
+            last = i + 1
+    parts.append(tail[last:].strip())
+    if len(parts) < 2 or not parts[0].endswith('.clone()'):
+        return body
+    expr = parts[0]
+    for p in parts[1:]:
+        expr = 'str_concat(%s, %s)' % (expr, p)
+    fired['N10'] = fired.get('N10', 0) + 1
+    indent = re.match(r'\s*', tail).group(0)
+    return body[:start] + indent + expr + '\n    ' + body[close:]
+
+
 def n17_ref_into_iter(text, fired):
     """N17: `for P in &PATH {` -> `for P in PATH.iter() {`  (std: <&C as IntoIterator>::into_iter is C::iter;
     vstd has no specification for the former on VecDeque)."""
@@ -553,7 +590,7 @@ class Gen:
                         dd = shlex.split(sj[3:].strip())
                         if dd[0] == 'endfn':
                             break
-                        if dd[0] in ('loop', 'at', 'start', 'sigattr', 'tail', 'closure', 'anf', 'end', 'rename', 'end-of-loop'):
+                        if dd[0] in ('loop', 'at', 'start', 'sigattr', 'tail', 'closure', 'anf', 'end', 'rename', 'end-of-loop', 'start-of-loop'):
                             sections.append((dd[0], dd[1:], [], j + 1))
                         else:
                             raise GenError('%s:%d unexpected directive %s inside fn' % (tmpl_path, j + 1, dd[0]))
@@ -721,6 +758,8 @@ class Gen:
         body2 = normalise_code(body, fired)
         body2 = n6_closure_patterns(body2, fired)
         body2 = n9_step_by(body2, fired)
+        if not decl_only:
+            body2 = n10_string_plus_chain(body2, fired)
         for kind, args, slines, tl in sections:
             if kind == 'rename':
                 # N8 (flattening): two modules of the crate use the same name for different items; the one of this
@@ -754,6 +793,12 @@ class Gen:
                 sigattrs = slines
             elif kind == 'start':
                 inserts.setdefault(1, []).extend(slines)
+            elif kind == 'start-of-loop':
+                n = int(args[0])
+                if n > len(loops):
+                    info.lost.append('loop %d (function has %d loops)' % (n, len(loops)))
+                    continue
+                inserts.setdefault(loops[n - 1] + 1, []).extend(slines)
             elif kind == 'end-of-loop':
                 n = int(args[0])
                 if n > len(loops):
